@@ -3,6 +3,7 @@
 import JanetModel.Parse.Model
 import JanetModel.Parse.Lemmas
 import JanetModel.PP.Jdn
+import JanetModel.Parse.Escape
 
 namespace JanetModel.Props.C11
 open JanetModel.Parse JanetModel.PP JanetModel.Gen.Parse
@@ -148,5 +149,44 @@ theorem advancePos_is_posStep (p : Parser) (c : B) :
   split
   · rfl
   · split <;> rfl
+
+/-! ## print / parse round trip of string escapes -/
+
+/-- ★ For EVERY byte string `bs` (all 256 byte values, any length): wherever a value may start (top frame is a root consumer:
+    top level, inside any container, after a reader macro), with no error latched, the text that `%j` prints for the string --
+    `"` ++ escapes ++ `"` (`janet_escape_string_impl`) -- is consumed byte by byte without error and ends with the parser
+    handing exactly `Value.str bs` to `popstate`.  The escape tables on both sides come from the current source (Gen). -/
+theorem escape_roundtrip (scan : List B → Option String) (args : List Value) (rest : List Frame) (line column pending : Nat)
+    (lookback : Int) (flag : Nat) (top : Frame) (htop : top.consumer = .root) (bs : List B) :
+    ∃ cnt an, steps scan ⟨args, none, top :: rest, [], line, column, pending, lookback, flag⟩ (escapeString bs) =
+      some (popstate ⟨args, none, strFrame ⟨0, 0, PFLAG_STRING, line, column, .stringchar⟩ cnt an .stringchar :: top :: rest, [],
+              line, column, pending, lookback, flag⟩ (Value.str bs)) ∧
+      (popstate ⟨args, none, strFrame ⟨0, 0, PFLAG_STRING, line, column, .stringchar⟩ cnt an .stringchar :: top :: rest, [],
+              line, column, pending, lookback, flag⟩ (Value.str bs)).error = none := by
+  have h0 : step scan ⟨args, none, top :: rest, [], line, column, pending, lookback, flag⟩ 34 =
+      (⟨args, none, strFrame ⟨0, 0, PFLAG_STRING, line, column, .stringchar⟩ 0 0 .stringchar :: top :: rest, [], line, column, pending, lookback, flag⟩, true) := by
+    simp [step, htop, root, pushstate, strFrame]
+  obtain ⟨c1, a1, h1⟩ := escape_body_steps scan args (top :: rest) line column pending lookback flag
+    ⟨0, 0, PFLAG_STRING, line, column, .stringchar⟩ bs [] 0 0
+  have h2 : step scan ⟨args, none, strFrame ⟨0, 0, PFLAG_STRING, line, column, .stringchar⟩ c1 a1 .stringchar :: top :: rest, [] ++ bs,
+        line, column, pending, lookback, flag⟩ 34 =
+      (popstate ⟨args, none, strFrame ⟨0, 0, PFLAG_STRING, line, column, .stringchar⟩ c1 a1 .stringchar :: top :: rest, [],
+              line, column, pending, lookback, flag⟩ (Value.str bs), true) := by
+    have f1 : hasFlag PFLAG_STRING PFLAG_LONGSTRING = false := by decide
+    have f2 : hasFlag PFLAG_STRING PFLAG_BUFFER = false := by decide
+    simp [step, strFrame, stringchar, stringend, f1, f2]
+  have herr : (popstate ⟨args, none, strFrame ⟨0, 0, PFLAG_STRING, line, column, .stringchar⟩ c1 a1 .stringchar :: top :: rest, [],
+              line, column, pending, lookback, flag⟩ (Value.str bs)).error = none := by
+    simp [popstate]
+  refine ⟨c1, a1, ?_, herr⟩
+  have e : escapeString bs = 34 :: (escapeBody bs ++ [34]) := by simp [escapeString]
+  rw [e, steps_cons_ok scan _ _ _ _ h0 rfl, steps_append, h1]
+  simp only [Option.bind_some]
+  rw [steps_cons_ok scan _ _ _ _ h2 herr]
+  simp [steps]
+
+/-- non-vacuity: the hypotheses are met by the initial parser, and the conclusion computes on a string with NUL, quote,
+    backslash, newline, DEL and a high byte -/
+example : (Parser.init.states.head?.map (·.consumer)) = some Consumer.root := by decide
 
 end JanetModel.Props.C11
